@@ -501,8 +501,23 @@ class NPProxy(object):
     def _linalg_norm(self, x, ord=None, axis=None, keepdims=False):
         if is_sym(x):
             _used('np.linalg.norm')
-            if axis is not None or keepdims:
-                raise EngineGap('np.linalg.norm with axis on symbolic data')
+            if axis is not None:
+                if not isinstance(axis, (int, np.integer)) or not (ord is None or ord == 2):
+                    raise EngineGap('np.linalg.norm with axis tuple / ord on symbolic data')
+                arr = to_object_array(x)
+                ax = int(axis) % arr.ndim
+                moved = np.moveaxis(arr, ax, -1)
+                out = np.empty(moved.shape[:-1], dtype=object)
+                for idx in np.ndindex(out.shape):
+                    out[idx] = self._linalg_norm(wrap(moved[idx].copy(), getattr(x, 'dtype', None)))
+                if keepdims:
+                    out = np.expand_dims(out, ax)
+                return wrap(out, np.dtype('float64')) if out.ndim else out[()]
+            if keepdims:
+                arr = to_object_array(x)
+                out = np.empty((1,) * arr.ndim, dtype=object)
+                out[(0,) * arr.ndim] = self._linalg_norm(x, ord)
+                return wrap(out, np.dtype('float64'))
             a = to_object_array(x).ravel()
             if ord is None or ord == 2:
                 s = tolift(0)
